@@ -198,7 +198,22 @@ def classify(bundle, ret_values, stored, direct, meta_before, snap_before, snap_
       elif cols and len(cols) == 1 and cols <= converted[tid] and idx in fill_positions(tid, list(cols)[0]):
         exp, why = False, 'default fill of a converted empty column'
     if exp is not None and d != exp:
-      out.append(('should-be-nondirect', '%s flagged direct=%r: %s' % (json.dumps(rep)[:200], d, why)))
+      kind = 'should-be-nondirect'
+      if tid in summary_tables and k == 'upd':
+        # the clean-up of references to removed rows, applied to a summary table's group-by column
+        types = {c['colId']: c['type'] for c in meta_before.by_table[meta_before.table_by_id[tid]['id']]}
+        removed_from = {ua[1] for ua in bundle if RECORD_KINDS.get(ua[0]) == 'rm'}
+        if all(types.get(c, '').split(':')[0] in ('Ref', 'RefList') and types[c].split(':', 1)[1] in removed_from
+               for c in rep[3]):
+          kind = 'summary-ref-cleanup-marked-direct'
+      out.append((kind, '%s flagged direct=%r: %s' % (json.dumps(rep)[:200], d, why)))
+  filled = collections.defaultdict(dict)
+  for tid, cols in converted.items():
+    for col in cols:
+      for i in fill_positions(tid, col):
+        rep = stored[i]
+        if rep[1] == tid and RECORD_KINDS.get(rep[0]) == 'upd' and set(rep[3]) == {col}:
+          filled[tid].update({rc: G.norm(v) for rc, v in cells_of(rep).items()})
   # 2. every visible effect of a requested edit has a direct carrier on that table
   direct_actions = [rep for rep, d in zip(stored, direct) if d]
   for tid in user_tables:
@@ -215,6 +230,8 @@ def classify(bundle, ret_values, stored, direct, meta_before, snap_before, snap_
       if row in req_added[tid] or row in req_removed[tid]:
         continue
       b, a = before_value(tid, row, col), after_value(tid, row, col)
+      if (row, col) in filled[tid] and filled[tid][(row, col)] == a:
+        continue        # the new value is the one the column's conversion gave every row; the request added nothing
       if b != a and a != ('absent',) and b != ('absent',):
         if not any(rep[1] == tid and RECORD_KINDS.get(rep[0]) in ('upd', 'add') and (row, col) in cells_of(rep)
                    for rep in direct_actions):
